@@ -572,7 +572,7 @@ class _Parser:
         if self.is_op(".."):
             self.take()
             b = self._u32(self.int_const_expr(), "range end")
-            if b < a:
+            if b < a and not self.q:
                 raise BDOutOfDomain("range end below range start")
             self.note("range")
             return a, b - a
@@ -598,9 +598,8 @@ class _Parser:
             return arg
         return None
 
-    @staticmethod
-    def _u32(v, what):
-        if not 0 <= v <= _U32:
+    def _u32(self, v, what):
+        if not 0 <= v <= _U32 and not self.q:   # under a quirk the value is whatever the hypothesis yields
             raise BDOutOfDomain(f"{what} outside 0..2^32-1")
         return v
 
@@ -728,12 +727,14 @@ class _Parser:
         if op in ("/", "%"):
             if b == 0:
                 raise BDSemanticError("division by zero")
-            if (a < 0 or b < 0) and "unary-binds-looser-than-multiplicative" not in self.q:
+            if (a < 0 or b < 0) and not self.q:
                 raise BDOutOfDomain("negative operand of / or % (C truncates, floor division does not)")
-            return a // b if op == "/" else a % b
+            return a // b if op == "/" else a % b   # under a quirk: what unbounded floor arithmetic gives
         if op in ("<<", ">>"):
-            if a < 0 or not 0 <= b <= 31:
+            if (a < 0 or not 0 <= b <= 31) and not self.q:
                 raise BDOutOfDomain("shift of a negative value or by a count outside 0..31")
+            if b < 0 or b > 4096:
+                raise BDSemanticError("negative or absurd shift count")
             return a << b if op == "<<" else a >> b
         if op == "&":
             return a & b
@@ -1286,9 +1287,35 @@ GOLDENS = [
 ]
 
 
-def selftest_goldens(data_dir, skip_large=False):
-    """Interpret each shipped BD file and compare with the commands decoded from the elftosb-made SB file."""
+def rom_decoder():
+    """The full ROM model vf/refs/sb2_rom.py (property C04) as a decoder with decode_sb21's result shape, or None."""
+    try:
+        from . import sb2_rom
+    except ImportError:
+        return None
+
+    def decode(data, kek):
+        res = sb2_rom.decode(data, kek)
+        sections = []
+        for sec in res["sections"]:
+            cmds = []
+            for raw, tup in zip(sec["raw_commands"], sec["commands"]):
+                tag, flags, address, count, word = raw
+                cmds.append({"tag": tag, "flags": flags, "address": address, "count": count, "data": word,
+                             "payload": bytes(tup[4]) if tup[0] == "load" else None})
+            sections.append({"id": sec["uid"], "flags": sec["flags"], "commands": cmds})
+        return res, sections
+
+    return decode
+
+
+def selftest_goldens(data_dir, skip_large=False, decoder=None):
+    """Interpret each shipped BD file and compare with the commands decoded from the elftosb-made SB file.
+
+    ``decoder(data, kek) -> (header, sections)``: default is the minimal :func:`decode_sb21`."""
     import os
+
+    decoder = decoder or decode_sb21
 
     with open(os.path.join(data_dir, "sb_sources/keys/SBkek_PUF.txt"), encoding="utf-8") as f:
         kek = bytes.fromhex(f.read().strip())
@@ -1311,7 +1338,7 @@ def selftest_goldens(data_dir, skip_large=False):
                 raise
             prog = parse(text.replace("= True;", "= true;"), extern=ext)
         expected = commands(prog, read_file)
-        _, sections = decode_sb21(read_file(sb), kek)
+        _, sections = decoder(read_file(sb), kek)
         if len(sections) != len(expected):
             raise AssertionError(f"bd_ref/{bd}: {len(expected)} sections expected, golden has {len(sections)}")
         ncmd = 0
@@ -1343,6 +1370,14 @@ def selftest(data_dir=None):
     out = {"language_vectors": _selftest_language()}
     if data_dir:
         out["goldens_commands_equal"] = selftest_goldens(data_dir)
+        rom = rom_decoder()
+        out["golden_decoder"] = "own minimal decoder (decode_sb21)"
+        if rom is not None:
+            # the full ROM model of property C04 must see the very same commands in the goldens
+            again = selftest_goldens(data_dir, decoder=rom)
+            if again != out["goldens_commands_equal"]:
+                raise AssertionError(f"bd_ref: sb2_rom and decode_sb21 disagree: {again} vs {out['goldens_commands_equal']}")
+            out["golden_decoder"] = "vf/refs/sb2_rom.py (full ROM model) and own minimal decoder, both equal to the reference"
     return out
 
 
